@@ -490,6 +490,6 @@ def _judge_end(va, vb, op, out, mosw, add):
         add('C07.complete', 'roDelete did not record exactly one completion record')
     else:
         rd = children(vb.metas[0], 'roDelete')
-        want = canon(['roDelete', {}, '', '', [['roID', {}, op.get('ro_id', 'RO1'), '', []]]])
+        want = canon(['roDelete', {}, '', '', [['roID', {}, op.get('ro_id', 'RO1'), '', []]] + list(op.get('extra', []))])
         if len(rd) != 1 or notail(rd[0]) != notail(want):
             add('C07.record', 'the completion record does not hold the sent roDelete')
